@@ -34,3 +34,25 @@ package body
 //@   loop 0 invariant[allocated] forall k int :: 0 <= k && k < len(ranges) ==> allocated(ranges[k])
 //@   loop 0 invariant[within-content] forall k int :: 0 <= k && k < len(ranges) ==>
 //@        0 <= ranges[k][0] && ranges[k][0] <= ranges[k][1] && ranges[k][1] < len(m.body)
+
+// C20 (multipart answers): every modifier - built in Go or from a JSON configuration - gets a random multipart boundary
+// of its own at construction; the boundary written into the Content-Type header is the one the multipart body uses only
+// if there is one. nRandB counts boundary draws, lastRandB is the last one.
+//@ ghost var nRandB int
+//@ ghost var lastRandB string
+//@ func randomBoundary
+//@   trusted
+//@   modifies nRandB, lastRandB
+//@   ensures nRandB == old(nRandB) + 1 && lastRandB == result
+//@ func NewModifier
+//@   serves C20
+//@   modifies nRandB, lastRandB
+//@   ensures[new-modifier-carries-a-fresh-boundary] result != nil && fresh(result) && nRandB == old(nRandB) + 1 && result.boundary == lastRandB && result.contentType == contentType && result.body == b
+//@ extern func json.Unmarshal
+//@   modifies modifierJSON.*
+//@ func modifierFromJSON
+//@   serves C20
+//@   modifies nRandB, lastRandB
+//@   noframe
+//@   at call 0 of NewResult before assert[a-configured-modifier-is-built-by-the-constructor-with-a-boundary-content-type-and-body] typeis(arg0, *Modifier) && as(arg0, *Modifier).boundary == lastRandB && nRandB == old(nRandB) + 1 &&
+//@        as(arg0, *Modifier).contentType == msg.ContentType && as(arg0, *Modifier).body == msg.Body && arg1 == msg.Scope
